@@ -364,3 +364,66 @@ func (c *Cond) Broadcast() {
 	}
 	c.waiters = nil
 }
+
+// Pool stands in for sync.Pool (simgen rule "pool"). The real pool's hit or
+// miss depends on which P the calling goroutine runs on and on when the
+// garbage collector last ran, neither of which the simulator decides; a
+// defect that lives in a pooled object (a poisoned entry, state surviving
+// Reset) would then show up or not by chance and would not replay. This one
+// is a LIFO whose contents are dropped at the start of every run (as after a
+// GC) and whose Get misses with a seeded probability although an object is
+// available (another P's private slot, a GC in between). Put(nil) is ignored
+// and a typed nil pointer is stored, exactly like sync.Pool.
+type Pool struct {
+	New func() any
+
+	mu    sync.Mutex
+	items []any
+	gen   uint64
+}
+
+func (p *Pool) sync() *Sim {
+	s := cur
+	g := uint64(0)
+	if s != nil {
+		g = s.gen
+	}
+	if p.gen != g {
+		p.items, p.gen = nil, g
+	}
+	return s
+}
+
+func (p *Pool) Get() any {
+	p.mu.Lock()
+	s := p.sync()
+	var x any
+	if n := len(p.items); n > 0 {
+		miss := false
+		if s != nil && s.cur != nil {
+			miss = s.Stream("pool").Chance(10)
+		}
+		if !miss {
+			x = p.items[n-1]
+			p.items[n-1] = nil
+			p.items = p.items[:n-1]
+		}
+	}
+	p.mu.Unlock()
+	if x == nil && p.New != nil {
+		x = p.New()
+	}
+	return x
+}
+
+func (p *Pool) Put(x any) {
+	if x == nil {
+		return
+	}
+	p.mu.Lock()
+	p.sync()
+	if len(p.items) < 64 {
+		p.items = append(p.items, x)
+	}
+	p.mu.Unlock()
+}
